@@ -412,6 +412,18 @@ def run_times(params, known):
         except Exception as err:
             bad('time-conversion-raises', '%d (%s): %s: %s' % (val, text, type(err).__name__, err), val)
             continue
+        if count % 13 == 0:
+            # the same instant written in other time zones
+            for (hh, mm) in ((2, 0), (-5, 0), (5, 45)):
+                zone = datetime.timezone(datetime.timedelta(hours=hh, minutes=mm if hh >= 0 else -mm))
+                local = when.astimezone(zone)
+                try:
+                    got_z = Timestamp(dtntime=local, seqno=1).getfieldval('dtntime')
+                except Exception as err:
+                    bad('time-conversion-raises', '%s: %s: %s' % (local.isoformat(), type(err).__name__, err), val)
+                    continue
+                if got_z != val:
+                    bad('datetime-input-gives-other-dtn-time', '%s is DTN time %d, the field holds %r' % (local.isoformat(), val, got_z), val)
         if got_dt != val:
             bad('datetime-input-gives-other-dtn-time', '%s is DTN time %d, the field holds %r' % (when.isoformat(), val, got_dt), val)
         elif got_tx != val:
@@ -546,7 +558,7 @@ ASSUMPTIONS = [
     'administrative records of six types without a bound class x 15 contents (empty / falsy values included) x extra bundle flags',
     'known-type extension blocks (previous node, age, hop count, BIB, BCB) carrying 27 kinds of foreign block-type-specific data (other CBOR shapes, truncated CBOR, not CBOR)',
     'bundles with n extension blocks for every n up to 40 and around 24 / 256 top-level items (thorough: every n up to 300)',
-    'DTN time input forms (datetime, ISO text): every millisecond of windows after the epoch, around 2^k seconds for k = 10..35 and at three later dates (2000 ms wide, thorough 20000 ms), against integer arithmetic',
+    'DTN time input forms (datetime, ISO text): every millisecond of windows after the epoch, around 2^k seconds for k = 10..35 and at three later dates (2000 ms wide, thorough 20000 ms), against integer arithmetic; every 13th instant also as an aware datetime of three other time zones',
     'the independent codec (vmc/oracle/bpv7.py, cbor_min.py, crc.py) is the reference for RFC 9171 / RFC 8949',
 ]
 
